@@ -265,3 +265,10 @@ PROPS["C10"]["rule"] += "; Ord::max/min/clamp; order consistent with equality al
 PROPS["C14"]["rule"] += "; every codon length 0..=300 except 3"
 PROPS["C01"]["rule"] += "; String::from / format! forms incl. width, fill and alignment flags; collect/extend through iterators with inexact size hints"
 PROPS["C04"]["rule"] += "; producers include owned sequences collected from windows(n)/chunks(n), From<&BitSlice>/From<BitVec>, and Seq::<text::Dna>::from(Vec<usize>)"
+
+PROPS["C02"]["assumptions"] = [a for a in PROPS["C02"]["assumptions"] if "write_*" not in a] + ["equal content must reach the Hasher as the same sequence of write_* calls with the same bytes (std's Hash/Borrow contract is about any Hasher); the scheme itself is free"]
+PROPS["C07"]["rule"] += "; all forms of an operation are compared with each other and with a freshly built expected sequence through the real == and the hasher stream, not only by decoded symbols"
+PROPS["C08"]["rule"] += "; K valid symbols with leading/trailing line ends, blanks or NUL must not parse"
+PROPS["C11"]["rule"] += "; windows/chunks of a width near usize::MAX polled repeatedly"
+PROPS["C15"]["rule"] += "; array inputs listing a codon twice"
+PROPS["C05"]["rule"] += "; symbol-level conversions text->dna (all 256 bytes), dna->text, dna->iupac"
